@@ -199,4 +199,14 @@ CHECKS['C14'] = dict(title='A log message reaches exactly the destinations whose
     bound={'quick': 'part A complete; histories of 2 and 3 settings (<= 2 on the log, <= 1 on the destination)', 'thorough': 'histories up to 4 settings (<= 3 on the log, <= 2 on the destination; 4-step histories only with a duplicate filter type)'},
     assumptions=['levels and classes 1..6 (undefined excluded)', 'class lists are written without blanks around the commas'])
 
+CHECKS['C16'] = dict(title='Every delivered log message is rendered exactly as its format definition says', engine='xenum',
+    harness=['harness/c16_format.cpp'], flags='asan', lib=True, level='model_checking', deadline={'quick': 240, 'thorough': 2400}, hang_s=60,
+    technique='bounded-exhaustive enumeration of format definitions built through the real Creator (all field kinds x width x alignment x format string x separator settings, up to 3 items) x messages, and of attribute operation histories, rendered through the real stream destination and compared with an independent renderer',
+    level_text='every definition of 1 and 2 (thorough: 3, thinned options) items over 16 field kinds x widths {0,3,12} x alignment x format string {none, %H:%M, %d.%m.%Y} before every kind of field, separator {none, |, -} initially and changed before a later item; messages over all levels, classes, texts, 4 time stamps around the day boundary with sub-second parts; every attribute operation sequence of <= 4 (thorough 5) over global add/remove and scoped open/close on 2 names with 4 message-own attribute variants, message rendered after every operation',
+    level_note='trusts the 60-line reference renderer (own calendar arithmetic, setw-style padding); pid/thread id/function name are read back from the message object; TZ=UTC; removing a scoped attribute by hand is unspecified and skipped',
+    rule='definition = item sequence with pending options + separator settings (odometer) x message; attribute history = operation sequence (DFS); states = definitions + attribute histories, transitions = messages rendered through LogDestStream; non-trivial = (first item[, second item]) cases',
+    bound={'quick': '1 item: 288 option sets x 3 separators x message product; 2 items: 288^2 x 8 separator settings x 3 messages; attribute operations <= 4',
+           'thorough': '2 items x 6 messages; 3 items: 128^3 thinned option sets x 6 separator settings; attribute operations <= 5'},
+    assumptions=['the automatic separator is placed between any two items, constant text included (as the in-tree creator test documents)', 'message-own attribute values are non-empty (an empty own value falls through to the global one by design)'])
+
 NOT_APPLICABLE = [e for e in NOT_APPLICABLE if e['property_id'] not in CHECKS]
